@@ -2,6 +2,7 @@ package core
 
 import (
 	"go/token"
+	"go/types"
 	"golang.org/x/tools/go/ssa"
 )
 
@@ -202,4 +203,64 @@ func LoadSource(v ssa.Value) ssa.Value {
 		}
 	}
 	return v
+}
+
+// ZeroTest brings a comparison of a non-negative quantity (an unsigned value
+// or a len/cap) with 0 or 1 to the form "v == 0 is <isZero>": `v == 0`,
+// `v < 1`, `v <= 0` and their negations `v != 0`, `v >= 1`, `v > 0`, with the
+// constant on either side.  ok is false for anything else.
+func ZeroTest(cond ssa.Value, truth bool) (v ssa.Value, isZero bool, ok bool) {
+	cond, truth = StripNot(cond, truth)
+	bo, isB := cond.(*ssa.BinOp)
+	if !isB {
+		return nil, false, false
+	}
+	x, y, op := bo.X, bo.Y, bo.Op
+	if _, isK := ConstInt(x); isK {
+		x, y = y, x
+		switch op {
+		case token.LSS:
+			op = token.GTR
+		case token.GTR:
+			op = token.LSS
+		case token.LEQ:
+			op = token.GEQ
+		case token.GEQ:
+			op = token.LEQ
+		}
+	}
+	k, isK := ConstInt(y)
+	if !isK {
+		return nil, false, false
+	}
+	nonneg := false
+	if b, isBasic := x.Type().Underlying().(*types.Basic); isBasic && b.Info()&types.IsUnsigned != 0 {
+		nonneg = true
+	}
+	inner := x
+	if cv, isCv := inner.(*ssa.Convert); isCv {
+		inner = cv.X
+	}
+	if call, isC := inner.(*ssa.Call); isC {
+		if bi, isBi := call.Call.Value.(*ssa.Builtin); isBi && (bi.Name() == "len" || bi.Name() == "cap") {
+			nonneg = true
+		}
+	}
+	if !nonneg {
+		// only == 0 / != 0 are zero tests of a signed value
+		switch {
+		case op == token.EQL && k == 0:
+			return x, truth, true
+		case op == token.NEQ && k == 0:
+			return x, !truth, true
+		}
+		return nil, false, false
+	}
+	switch {
+	case op == token.EQL && k == 0, op == token.LSS && k == 1, op == token.LEQ && k == 0:
+		return x, truth, true
+	case op == token.NEQ && k == 0, op == token.GEQ && k == 1, op == token.GTR && k == 0:
+		return x, !truth, true
+	}
+	return nil, false, false
 }
